@@ -392,3 +392,45 @@ def loop_of_elem(f, elem):
 def closures_of(db, f):
     """Closure bodies defined directly inside f (their own closures are reached recursively by the callers that need them)."""
     return [c for c in db.fns.values() if c.kind == 'Closure' and c.raw.get('iparent') == f.path]
+
+
+def range_of_len(f, e):
+    """e is the number of elements of a `Range<usize>` place r: `r.len()` (ExactSizeIterator) or `r.end - r.start`.  Returns r or None.
+    (`end - start` equals `len()` wherever start <= end, which the non-emptiness guard the callers also demand implies.)"""
+    e = norm(e)
+    r = None
+    if e[0] == 'call' and e[1].endswith('::len') and len(e[2]) == 1:
+        r = norm(e[2][0])
+    else:
+        b = m(('bin', 'Sub', ('fld', '$r', 'end'), ('fld', '$r2', 'start')), e)
+        if b is not None and b['$r'] == b['$r2']:
+            r = norm(b['$r'])
+    if r is not None and r[0] in ('p', 'v') and 'Range<usize>' in f.local_ty(r[1]):
+        return r
+    return None
+
+
+def range_nonempty(rels, r=None):
+    """A dominating relation says the Range<usize> place r is not empty: `!r.is_empty()` or `r.start < r.end`."""
+    for x in rels:
+        if x[0] == 'false' and isinstance(x[1], tuple) and x[1][0] == 'call' and x[1][1].endswith('is_empty') and (r is None or norm(x[1][2][0]) == r):
+            return True
+        if x[0] in ('lt', 'gt') and len(x) >= 3:
+            a_, b_ = (x[1], x[2]) if x[0] == 'lt' else (x[2], x[1])
+            ba, bb = m(('fld', '$r', 'start'), norm(a_)), m(('fld', '$r', 'end'), norm(b_))
+            if ba is not None and bb is not None and ba['$r'] == bb['$r'] and (r is None or norm(ba['$r']) == r):
+                return True
+    return False
+
+
+def is_tail_range(rng, start_pred, coll=None):
+    """rng denotes `start..` of a collection: RangeFrom{start}, or Range{start, len(coll)} (the same elements)."""
+    rng = norm(rng)
+    if not (rng[0] == 'agg' and isinstance(rng[1], tuple) and len(rng[1]) > 1 and isinstance(rng[1][1], str)):
+        return False
+    nm = rng[1][1].rsplit('::', 1)[-1]
+    if nm == 'RangeFrom' and len(rng[2]) == 1:
+        return start_pred(rng[2][0])
+    if nm == 'Range' and len(rng[2]) == 2 and start_pred(rng[2][0]):
+        return is_len_of(rng[2][1], coll) if coll is not None else is_len_of(rng[2][1])
+    return False
